@@ -418,13 +418,13 @@ FAMILIES = {
                    invs=["MC_C16", "MC_C02", "MC_C06"],
                    quick=dict(mc=[dict(nobj=2, caps="CapsQ")],
                               sim=[dict(nobj=3, caps="Caps3", num=600, simlen=30)]),
-                   thorough=dict(mc=[dict(nobj=2, caps="CapsM"), dict(nobj=3, caps="CapsQ", ops="OpsDtorQ")],
+                   thorough=dict(mc=[dict(nobj=2, caps="CapsM"), dict(nobj=3, caps="CapsQ", ops="OpsDtorT")],
                                  sim=[dict(nobj=3, caps="Caps3", num=6000, simlen=40), dict(nobj=4, caps="Caps3", num=4000, simlen=50)])),
     "dtor05": dict(ops="OpsDtor", menu="MenuC05", profile="dtor05",
                    invs=["MC_C05", "MC_C02", "MC_C06"],
                    quick=dict(mc=[dict(nobj=2, caps="CapsQ")],
                               sim=[dict(nobj=3, caps="Caps3", num=600, simlen=30)]),
-                   thorough=dict(mc=[dict(nobj=2, caps="CapsM"), dict(nobj=3, caps="CapsQ", ops="OpsDtorQ")],
+                   thorough=dict(mc=[dict(nobj=2, caps="CapsM"), dict(nobj=3, caps="CapsQ", ops="OpsDtorW")],
                                  sim=[dict(nobj=3, caps="Caps3", num=6000, simlen=40), dict(nobj=4, caps="Caps3", num=4000, simlen=50)])),
     "panic": dict(ops="OpsDtor", menu="MenuPanic", profile="panic",
                   invs=["MC_C11"],
@@ -442,7 +442,7 @@ FAMILIES = {
                   invs=["MC_C13x", "MC_C06", "MC_C08", "MC_C04"],
                   quick=dict(mc=[dict(nobj=2, caps="CapsS")],
                              sim=[dict(nobj=2, caps="CapsS3", num=500, simlen=25), dict(nobj=3, caps="CapsS", num=500, simlen=30)]),
-                  thorough=dict(mc=[dict(nobj=2, caps="CapsS3"), dict(nobj=3, caps="CapsS", ops="OpsCoreQ")],
+                  thorough=dict(mc=[dict(nobj=2, caps="CapsS3"), dict(nobj=3, caps="CapsS", ops="OpsCoreT")],
                                 sim=[dict(nobj=3, caps="CapsS3", num=6000, simlen=40), dict(nobj=4, caps="CapsS", num=4000, simlen=50)])),
 }
 
@@ -451,7 +451,7 @@ FAMILIES["elide"] = dict(
     invs=["MC_C13x", "MC_C06", "MC_C08", "MC_C04"],
     quick=dict(mc=[dict(nobj=2, caps="CapsE")],
                sim=[dict(nobj=2, caps="CapsE3", num=500, simlen=25), dict(nobj=3, caps="CapsE", num=500, simlen=30)]),
-    thorough=dict(mc=[dict(nobj=2, caps="CapsE3"), dict(nobj=3, caps="CapsE", ops="OpsCoreQ")],
+    thorough=dict(mc=[dict(nobj=2, caps="CapsE3"), dict(nobj=3, caps="CapsE", ops="OpsCoreT")],
                   sim=[dict(nobj=3, caps="CapsE3", num=6000, simlen=40), dict(nobj=4, caps="CapsE", num=4000, simlen=50)]))
 
 FAMILIES["order"] = dict(
@@ -468,7 +468,7 @@ FAMILIES["std"] = dict(
     invs=["MC_C07", "MC_C01", "MC_C02", "MC_C04", "MC_C05", "MC_C06"],
     quick=dict(mc=[dict(nobj=2, caps="CapsQ", ops="OpsStdQ")],
                sim=[dict(nobj=3, caps="Caps3", num=500, simlen=30, ops="OpsStdM"), dict(nobj=4, caps="Caps3", num=300, simlen=40, ops="OpsStdM")]),
-    thorough=dict(mc=[dict(nobj=2, caps="CapsM"), dict(nobj=3, caps="CapsQ", ops="OpsStdQ")],
+    thorough=dict(mc=[dict(nobj=2, caps="CapsM"), dict(nobj=3, caps="CapsQ", ops="OpsStdT")],
                   sim=[dict(nobj=3, caps="Caps3", num=6000, simlen=40, ops="OpsStdM"), dict(nobj=4, caps="Caps3", num=4000, simlen=50, ops="OpsStdM"),
                        dict(nobj=5, caps="Caps3", num=2000, simlen=60, ops="OpsStdM")]))
 
